@@ -515,9 +515,10 @@ def coerce (env : Env) (specMu : Bool := true) (subEnv : Env := env) : Nat → T
          | _, _ => .err .subtype)
       | .variant efs =>
         (match w', v with
-         | .variant wfs, .variant l v2 _ =>
+         | .variant wfs, .variant l v2 i =>
+           -- the index is no part of the abstract value (the driver does not print it); the wire's is kept
            (match efs.toList.find? (fun p => p.1.getId = l.getId), Sub.lookupF wfs l.getId with
-            | some (el, et), some wt => (coerce env specMu subEnv fuel wt et v2).map fun v' => .variant el v' 0
+            | some (el, et), some wt => (coerce env specMu subEnv fuel wt et v2).map fun v' => .variant el v' i
             | _, _ => .err .subtype)
          | _, _ => .err .subtype)
       | .func _ _ _ =>
